@@ -7,15 +7,15 @@ pub struct Memory { _p: () }
 //@ item struct State
 
 /// the scalar store by name
-pub open spec fn store_of(s: State) -> vstd::map::Map<Seq<char>, Constant> { by_name(s.scalars@) }
+pub open spec fn store_of(s: State) -> IMap<Seq<char>, Constant> { by_name(s.scalars@) }
 
 /// the environment a state gives to expressions: scalars are looked up BY NAME ONLY
-pub open spec fn store_env(st: vstd::map::Map<Seq<char>, Constant>) -> Env {
+pub open spec fn store_env(st: IMap<Seq<char>, Constant>) -> Env {
     |x: Scalar| if st.contains_key(x.name@) { Some((st[x.name@].bits as nat, st[x.name@].value@)) } else { None::<(nat, nat)> }
 }
 
 /// symbolization replaces every scalar that has a value by that constant
-pub open spec fn sym_g(st: vstd::map::Map<Seq<char>, Constant>) -> ExprMap {
+pub open spec fn sym_g(st: IMap<Seq<char>, Constant>) -> ExprMap {
     |e: Expression| match e {
         Expression::Scalar(s) => if st.contains_key(s.name@) { Some(Expression::Constant(st[s.name@])) } else { None::<Expression> },
         _ => None::<Expression>,
@@ -23,7 +23,7 @@ pub open spec fn sym_g(st: vstd::map::Map<Seq<char>, Constant>) -> ExprMap {
 }
 
 /// every stored constant satisfies the Constant invariant
-pub open spec fn store_wf(st: vstd::map::Map<Seq<char>, Constant>) -> bool {
+pub open spec fn store_wf(st: IMap<Seq<char>, Constant>) -> bool {
     forall|n: Seq<char>| st.contains_key(n) ==> (#[trigger] st[n]).wf()
 }
 
@@ -38,13 +38,15 @@ impl State {
 //@ end
 
 //@ fn impl State :: fn set_scalar
-//@ rewrite 1 `name.into()` => `into_string(name)` ## R-into: the same conversion through a stand-in carrying the assumed contract of Into<String>
+//@ rewrite 1 `self.scalars.insert(name.into(), value);` => `let vf_key: String = into_string(name); self.scalars.insert(vf_key, value);` ## R-into-let: the same conversion through a stand-in carrying the assumed contract of Into<String>, bound to a local first
 //@ spec
     ensures
         /*@store*/ store_of(*final(self)) == store_of(*old(self)).insert(into_string_chars(name), value),
         /*@frame*/ final(self).memory == old(self).memory,
-//@ after 0 `self.scalars.insert(into_string(name), value);`
-    proof { lemma_by_name_insert(old(self).scalars@, choose|k: String| k@ == into_string_chars(name) && final(self).scalars@ == old(self).scalars@.insert(k, value), value); }
+//@ before 0 `self.scalars.insert(vf_key, value);`
+    let ghost gk = vf_key;
+//@ after 0 `self.scalars.insert(vf_key, value);`
+    proof { assert(self.scalars@ == old(self).scalars@.insert(gk, value)); lemma_by_name_insert(old(self).scalars@, gk, value); }
 //@ end
 
 //@ fn impl State :: fn symbolize_expression
@@ -52,6 +54,111 @@ impl State {
 //@ spec
     ensures /*@spec*/ map_result(r, map_spec(sym_g(store_of(*self)), *expression)),
     decreases *expression,
+//@ end
+
+} // impl State
+
+// ---- evaluation against the store ---------------------------------------------------------------
+
+/// every scalar of e that has a value in the store has a value of the scalar's declared width
+pub open spec fn typed_in(st: IMap<Seq<char>, Constant>, e: Expression) -> bool
+    decreases e,
+{
+    match e {
+        Expression::Scalar(s) => st.contains_key(s.name@) ==> st[s.name@].bits == s.bits,
+        Expression::Constant(c) => true,
+        Expression::Add(l, r) | Expression::Sub(l, r) | Expression::Mul(l, r) | Expression::Divu(l, r)
+        | Expression::Modu(l, r) | Expression::Divs(l, r) | Expression::Mods(l, r) | Expression::And(l, r)
+        | Expression::Or(l, r) | Expression::Xor(l, r) | Expression::Shl(l, r) | Expression::Shr(l, r)
+        | Expression::AShr(l, r) | Expression::Cmpeq(l, r) | Expression::Cmpneq(l, r) | Expression::Cmplts(l, r)
+        | Expression::Cmpltu(l, r) => typed_in(st, *l) && typed_in(st, *r),
+        Expression::Zext(b, x) | Expression::Sext(b, x) | Expression::Trun(b, x) => typed_in(st, *x),
+        Expression::Ite(c, t, f) => typed_in(st, *c) && typed_in(st, *t) && typed_in(st, *f),
+    }
+}
+
+/// symbolization keeps expressions sane, and its result evaluates (without any environment) to exactly
+/// what the original evaluates to under the store
+pub proof fn lemma_sym_eval(st: IMap<Seq<char>, Constant>, e: Expression)
+    requires store_wf(st), expr_sane(e), map_spec(sym_g(st), e) is Some,
+    ensures
+        expr_sane(map_spec(sym_g(st), e).unwrap()),
+        eval_spec(map_spec(sym_g(st), e).unwrap(), empty_env()) == eval_spec(e, store_env(st)),
+    decreases e,
+{
+    let g = sym_g(st);
+    if g(e) is Some {
+    } else {
+        match e {
+            Expression::Scalar(x) => {}
+            Expression::Constant(c) => {}
+            Expression::Add(l, r) | Expression::Sub(l, r) | Expression::Mul(l, r) | Expression::Divu(l, r)
+            | Expression::Modu(l, r) | Expression::Divs(l, r) | Expression::Mods(l, r) | Expression::And(l, r)
+            | Expression::Or(l, r) | Expression::Xor(l, r) | Expression::Shl(l, r) | Expression::Shr(l, r)
+            | Expression::AShr(l, r) | Expression::Cmpeq(l, r) | Expression::Cmpneq(l, r) | Expression::Cmplts(l, r)
+            | Expression::Cmpltu(l, r) => { lemma_sym_eval(st, *l); lemma_sym_eval(st, *r); }
+            Expression::Zext(b, x) | Expression::Sext(b, x) | Expression::Trun(b, x) => { lemma_sym_eval(st, *x); }
+            Expression::Ite(c, t, f) => { lemma_sym_eval(st, *c); lemma_sym_eval(st, *t); lemma_sym_eval(st, *f); }
+        }
+    }
+}
+
+/// on well-sorted expressions whose bound scalars have their declared widths, symbolization cannot fail
+pub proof fn lemma_sym_total(st: IMap<Seq<char>, Constant>, e: Expression)
+    requires store_wf(st), expr_wf(e), typed_in(st, e),
+    ensures
+        map_spec(sym_g(st), e) matches Some(e2) && expr_wf(e2) && expr_bits(e2) == expr_bits(e),
+    decreases e,
+{
+    let g = sym_g(st);
+    if g(e) is Some {
+    } else {
+        match e {
+            Expression::Scalar(x) => {}
+            Expression::Constant(c) => {}
+            Expression::Add(l, r) | Expression::Sub(l, r) | Expression::Mul(l, r) | Expression::Divu(l, r)
+            | Expression::Modu(l, r) | Expression::Divs(l, r) | Expression::Mods(l, r) | Expression::And(l, r)
+            | Expression::Or(l, r) | Expression::Xor(l, r) | Expression::Shl(l, r) | Expression::Shr(l, r)
+            | Expression::AShr(l, r) | Expression::Cmpeq(l, r) | Expression::Cmpneq(l, r) | Expression::Cmplts(l, r)
+            | Expression::Cmpltu(l, r) => { lemma_sym_total(st, *l); lemma_sym_total(st, *r); }
+            Expression::Zext(b, x) | Expression::Sext(b, x) | Expression::Trun(b, x) => { lemma_sym_total(st, *x); lemma_expr_wf_bits(*x); }
+            Expression::Ite(c, t, f) => { lemma_sym_total(st, *c); lemma_sym_total(st, *t); lemma_sym_total(st, *f); }
+        }
+    }
+}
+
+pub proof fn lemma_wf_sane(e: Expression)
+    requires expr_wf(e),
+    ensures expr_sane(e),
+    decreases e,
+{
+    match e {
+        Expression::Scalar(x) => {}
+        Expression::Constant(c) => {}
+        Expression::Add(l, r) | Expression::Sub(l, r) | Expression::Mul(l, r) | Expression::Divu(l, r)
+        | Expression::Modu(l, r) | Expression::Divs(l, r) | Expression::Mods(l, r) | Expression::And(l, r)
+        | Expression::Or(l, r) | Expression::Xor(l, r) | Expression::Shl(l, r) | Expression::Shr(l, r)
+        | Expression::AShr(l, r) | Expression::Cmpeq(l, r) | Expression::Cmpneq(l, r) | Expression::Cmplts(l, r)
+        | Expression::Cmpltu(l, r) => { lemma_wf_sane(*l); lemma_wf_sane(*r); }
+        Expression::Zext(b, x) | Expression::Sext(b, x) => { lemma_wf_sane(*x); lemma_expr_wf_bits(*x); }
+        Expression::Trun(b, x) => { lemma_wf_sane(*x); lemma_expr_wf_bits(*x); }
+        Expression::Ite(c, t, f) => { lemma_wf_sane(*c); lemma_wf_sane(*t); lemma_wf_sane(*f); }
+    }
+}
+
+impl State {
+
+//@ fn impl State :: fn symbolize_and_eval
+//@ spec
+    requires store_wf(store_of(*self)), expr_sane(*expression),
+    ensures
+        /*@no_guess*/ r matches Ok(c) ==> (c.wf() && eval_spec(*expression, store_env(store_of(*self))) == EvalR::Val(c.bits as nat, c.value@)),
+        /*@exact*/ (expr_wf(*expression) && typed_in(store_of(*self), *expression)) ==> eval_agrees(r, eval_spec(*expression, store_env(store_of(*self)))),
+//@ enter
+    proof {
+        if map_spec(sym_g(store_of(*self)), *expression) is Some { lemma_sym_eval(store_of(*self), *expression); }
+        if expr_wf(*expression) && typed_in(store_of(*self), *expression) { lemma_sym_total(store_of(*self), *expression); }
+    }
 //@ end
 
 } // impl State
